@@ -565,7 +565,15 @@ func init() {
 		x, y := ex.bytesOf(a[0]), ex.bytesOf(a[1])
 		return ex.tf.Ite(ex.bytesLt(x, y), ex.tf.BVi(-1, 64), ex.tf.Ite(ex.bytesEq(x, y), ex.tf.BVi(0, 64), ex.tf.BVi(1, 64)))
 	})
-	reg("bytes.Equal", func(ex *Exec, a []Val) Val { return ex.bytesEq(ex.bytesOf(a[0]), ex.bytesOf(a[1])) })
+	reg("bytes.Equal", func(ex *Exec, a []Val) Val {
+		// two codec blobs of the same message type: equal encodings iff equal (normalised) values
+		if x, ok := a[0].(BlobV); ok {
+			if y, ok := a[1].(BlobV); ok && types.Identical(x.Typ, y.Typ) {
+				return ex.valEq(x.V, y.V)
+			}
+		}
+		return ex.bytesEq(ex.bytesOf(a[0]), ex.bytesOf(a[1]))
+	})
 	reg("bytes.Compare", func(ex *Exec, a []Val) Val {
 		x, y := ex.bytesOf(a[0]), ex.bytesOf(a[1])
 		return ex.tf.Ite(ex.bytesLt(x, y), ex.tf.BVi(-1, 64), ex.tf.Ite(ex.bytesEq(x, y), ex.tf.BVi(0, 64), ex.tf.BVi(1, 64)))
